@@ -478,13 +478,16 @@ class Pipeline:
         gen = interp.instantiate(cv, [root], {"expose_experiment_variant_function": expose}, "pipeline")
         return interp.apply(interp.getattr(gen, "generate", "pipeline"), [], {}, "pipeline")
 
-    def via_entry_point(self, root, it: A.Interp, expose: bool):
+    def via_entry_point(self, root, it: A.Interp, expose: bool, prev_root=None):
         """The text the library's own entry point produces for this tree: ExperimentEvaluator.recompile (what it hands to
         compile/exec) for the evaluator's layout, generate_code(text, True) for the exposed one.  The entry point is interpreted
         as written - its own steps around parsing and generating (options passed to the generator, checks, rewriting of the tree or
         of the text) are part of what runs - with the lexer and parser classes replaced by stand-ins that deliver this tree.  None
-        when the entry point cannot be followed (the generator is then called directly, as the documented pipeline does)."""
+        when the entry point cannot be followed (the generator is then called directly, as the documented pipeline does).
+        With prev_root (evaluator layout only) the evaluator is first constructed from another text whose tree is prev_root and
+        then given this text through recompile(): the result is what a recompiled evaluator hands to compile/exec."""
         text = A.Sym("str", "SOURCE-TEXT")
+        cur = {"root": root if prev_root is None else prev_root, "parses": 0}
         captured = []
         saved = {k: getattr(it, k, None) for k in ("class_hooks", "builtin_hooks", "ext_hooks", "hash_domain", "extra_globals")}
         lexer_names = {n for n, lc in self.lexers.items()}
@@ -495,7 +498,10 @@ class Pipeline:
             return A.Opaque("lexer", methods={"tokenize": lambda i2, a2, k2, s2: A.AList([A.Opaque("token")], "list")})
 
         def mk_parser(it_, a_, k_, s_):
-            return A.Opaque("parser", methods={"parse": lambda i2, a2, k2, s2: root})
+            def parse_(i2, a2, k2, s2):
+                cur["parses"] += 1
+                return cur["root"]
+            return A.Opaque("parser", methods={"parse": parse_})
 
         def compile_(it_, a_, k_, s_):
             src = a_[0] if a_ else k_.get("source")
@@ -509,7 +515,7 @@ class Pipeline:
             loc = a_[2] if len(a_) > 2 else k_.get("locals")
             glb = a_[1] if len(a_) > 1 else k_.get("globals")
             target = loc if isinstance(loc, A.ADict) else (glb if isinstance(glb, A.ADict) else None)
-            name = root.attrs.get("id") if isinstance(root, A.Obj) else None
+            name = cur["root"].attrs.get("id") if isinstance(cur["root"], A.Obj) else None
             if target is not None and name is not None:
                 target.items[A._key(name)] = A.Opaque("compiled-function", payload={"text": src})
             return None
@@ -540,7 +546,13 @@ class Pipeline:
                 if ec is None:
                     return None
                 cv = it.class_val(em, ec)
-                it.instantiate(cv, [text], {}, "pipeline")
+                ev_ = it.instantiate(cv, [text], {}, "pipeline")
+                if prev_root is not None:
+                    n0 = len([c for c in captured if isinstance(c, A.Tmpl)])
+                    cur["root"] = root
+                    it.apply(it.getattr(ev_, "recompile", "pipeline"), [A.Sym("str", "SOURCE-TEXT-2")], {}, "pipeline")
+                    texts = [c for c in captured if isinstance(c, A.Tmpl)]
+                    return texts[-1] if len(texts) > n0 and cur["parses"] >= 2 else None
                 texts = [c for c in captured if isinstance(c, A.Tmpl)]
                 return texts[-1] if texts else None
             wm = self.src.mod("utils/wraper_functions.py")
@@ -552,7 +564,10 @@ class Pipeline:
             out = it.call(A.FuncVal(wm, fn), [text], kw)
             return out if isinstance(out, A.Tmpl) else None
         except A.Unsupported as e:
-            self.entry_point_failures.append(("recompile" if not expose else "generate_code", str(e)))
+            if prev_root is None:
+                self.entry_point_failures.append(("recompile" if not expose else "generate_code", str(e)))
+            else:
+                self.history_failures = getattr(self, "history_failures", []) + [str(e)]
             return None
         finally:
             for k, v in saved.items():
@@ -594,6 +609,29 @@ class Pipeline:
                         o.finish()
             outs.append(o)
         return outs
+
+
+def run_history(pl: "Pipeline", prev: Prog, prog: Prog):
+    """[(assumptions, text after construct(prev) + recompile(prog) or None, text of a fresh evaluator of prog or None)] per fork."""
+    ptoks, toks = prog_tokens(prev), prog_tokens(prog)
+
+    def job(it: A.Interp):
+        r0 = pl.parse_to_ast(ptoks, it)
+        r1 = pl.parse_to_ast(toks, it)
+        if r0 is None or r1 is None:
+            return None
+        after = pl.via_entry_point(r1, it, False, prev_root=r0)
+        fresh = pl.via_entry_point(r1, it, False)
+        return (after, fresh)
+    out = []
+    for assumptions, res, it in A.run_forking(pl.src, job):
+        if isinstance(res, A.RaiseSig) or res is None:
+            out.append((assumptions, None, None))
+            continue
+        render = lambda t: None if not isinstance(t, A.Tmpl) else "".join(  # noqa: E731
+            p if isinstance(p, str) else placeholder(p.sym, p.render) for p in t.parts)
+        out.append((assumptions, render(res[0]), render(res[1])))
+    return out
 
 
 PLACE_INT = 7000000
@@ -884,7 +922,7 @@ class _Subst(ast.NodeTransformer):
         return _copy(self.repl) if n.id == self.name else n
 
 
-def free_names(fn: ast.FunctionDef) -> set:
+def free_names(fn: ast.FunctionDef, postponed_annotations: bool = False) -> set:
     """Names read in fn's body that are not its parameters or local bindings (one level)."""
     bound = {a.arg for a in fn.args.args + fn.args.kwonlyargs}
     if fn.args.vararg:
@@ -892,10 +930,25 @@ def free_names(fn: ast.FunctionDef) -> set:
     if fn.args.kwarg:
         bound.add(fn.args.kwarg.arg)
     loads = set()
+    # evaluated when the `def` statement runs, in the enclosing scope: decorators, defaults and - unless the module postpones them -
+    # the annotations of the parameters and of the result.  A name read there must be bound like any other free name
+    deftime = list(fn.decorator_list) + list(fn.args.defaults) + [d for d in fn.args.kw_defaults if d is not None]
+    if not postponed_annotations:
+        deftime += [a.annotation for a in fn.args.posonlyargs + fn.args.args + fn.args.kwonlyargs + [fn.args.vararg, fn.args.kwarg]
+                    if a is not None and a.annotation is not None]
+        if fn.returns is not None:
+            deftime.append(fn.returns)
+    for e in deftime:
+        for n in ast.walk(e):
+            if isinstance(n, ast.Name) and isinstance(n.ctx, ast.Load):
+                loads.add(n.id)
+            elif isinstance(n, ast.Constant) and isinstance(n.value, str) and e is not n:
+                pass
+    deftime_loads = set(loads)
     for st in fn.body:
         if isinstance(st, ast.FunctionDef):
             bound.add(st.name)
-            loads |= free_names(st)
+            loads |= free_names(st, postponed_annotations)
             continue
         for n in ast.walk(st):
             if isinstance(n, ast.Name):
@@ -903,7 +956,7 @@ def free_names(fn: ast.FunctionDef) -> set:
                     bound.add(n.id)
                 else:
                     loads.add(n.id)
-    return loads - bound
+    return (loads - bound) | deftime_loads
 
 
 def module_ir(tree: ast.Module, main_name: str):
@@ -1016,8 +1069,10 @@ def module_ir(tree: ast.Module, main_name: str):
     ir["key_expr"] = ret.args[0]
     ir["key"] = key_pieces(ret.args[0])
     ir["body"] = tuple(py_stmts(helper.body, None))
-    ir["helper_free"] = free_names(helper)
-    ir["main_free"] = free_names(main)
+    postponed = any(isinstance(st, ast.ImportFrom) and st.module == "__future__" and any(a.name == "annotations" for a in st.names)
+                    for st in tree.body)
+    ir["helper_free"] = free_names(helper, postponed)
+    ir["main_free"] = free_names(main, postponed)
     ir["helper_node"] = helper
     ir["main_node"] = main
     ir["statement_kinds"] = sorted({type(n).__name__ for n in ast.walk(tree) if isinstance(n, ast.stmt)})
